@@ -196,6 +196,9 @@ func racUF0(name string, a ...*big.Int) *big.Int {
 	}
 	return z
 }
+func racNegZero(p *big.Int) bool {
+	return p != nil && len(p.Bits()) == 0 && p.Cmp(new(big.Int)) != 0
+}
 func racStr(s string) *big.Int {
 	if s == "" {
 		return big.NewInt(0)
@@ -233,6 +236,9 @@ func racRep(z *BigInt) bool {
 		return true
 	}
 	if z._inner == negSentinel && z._inline == [inlineWords]big.Word{} {
+		return false
+	}
+	if z._inner != nil && z._inner != negSentinel && racNegZero(z._inner) {
 		return false
 	}
 	return true
